@@ -165,6 +165,19 @@ type Record struct {
 	HsSeq    []int    `json:"hsseq"`   // Height() observed after every step
 	Steps    int      `json:"steps"`
 	Cfg      string   `json:"cfg,omitempty"` // free exploration: the generated configuration
+	Kind     string   `json:"kind,omitempty"` // "" (reader schedules) | stop (C06 free schedules) | c17free | stress
+	Stored   []int    `json:"stored"`         // appended and not wiped since (nil: same as appended)
+	// c17 free schedules
+	SyncedBad int   `json:"syncedBad"`
+	FinalTail int   `json:"finalTail"`
+	TailWant  int   `json:"tailWant"`
+	Missing   []int `json:"missing"`
+	// c06 free schedules: Stop in the middle, reopen
+	StopHung           bool   `json:"stopHung"`
+	ReopenErr          string `json:"reopenErr"`
+	ReturnedBeforeStop []int  `json:"returnedBeforeStop"`
+	Lost               []int  `json:"lost"`
+	HeadBelowRun       bool   `json:"headBelowRun"`
 }
 
 type RdrOut struct {
@@ -381,6 +394,8 @@ func runSchedule(t *testing.T, id int, c map[string]any, tw, rw *mbt.Writer) {
 			rec0.Appended = append(rec0.Appended, h)
 		}
 		sort.Ints(rec0.Appended)
+		rec0.Stored = append([]int{}, rec0.Appended...)
+		rec0.Missing, rec0.ReturnedBeforeStop, rec0.Lost = []int{}, []int{}, []int{}
 		hd, _ := st.Head(bg)
 		if hd != nil {
 			rec0.Head = int(hd.Height())
